@@ -406,6 +406,11 @@ pub fn shapes(ty: Ty, min_n: usize, max_n: usize, nan_zm: bool, max_parts: usize
                         _ => {}
                     }
                 }
+                // a shape without any vertex (a value that only reading a file produces) somewhere in the sequence
+                if nan_zm && rel == 3 && ty.family() != Family::Point && !v.is_empty() && v.len() < max_n.max(2) {
+                    let i = pick(ix, v.len() + 1);
+                    v.insert(i, crate::kinds::empty_geom(ty));
+                }
                 v
             })
         })
